@@ -40,7 +40,9 @@ def _e1_parts(prop):
     return [
         {"name": "sched", "pkg": "e1_store", "race": False, "shards": 16, "env": {"VERIF_PROP": prop}},
         {"name": "stress", "pkg": "e1_store", "race": True, "shards": 16, "env": {"VERIF_PROP": prop}},
-    ] + ([{"name": "lru", "pkg": "e1_store", "race": False, "shards": 16, "env": {"VERIF_PROP": prop}},
+    ] + ([{"name": "swarm-upload", "pkg": "c16_upload", "netns": "isolated", "race": False, "shards": 16, "env": {"VERIF_PROP": "C01"}},
+          {"name": "swarm-readers", "pkg": "c02_reader", "netns": "loopback", "race": False, "shards": 16, "env": {"VERIF_PROP": "C01", "VERIF_PART": "readers"}},
+          {"name": "swarm-frontends", "pkg": "c02_reader", "netns": "loopback", "race": False, "shards": 16, "env": {"VERIF_PROP": "C01", "VERIF_PART": "frontends"}}] if prop == "C01" else []) + ([{"name": "lru", "pkg": "e1_store", "race": False, "shards": 16, "env": {"VERIF_PROP": prop}},
           {"name": "torexpire", "pkg": "c03_torexpire", "netns": "isolated", "race": False, "shards": 16}] if prop == "C03" else [])
 
 CHECKS["C01"] = {
@@ -48,9 +50,10 @@ CHECKS["C01"] = {
     "engine": "E1 piece store",
     "rule": ("sched: 96 templated scenarios built around the windows named in the property (Finalise||AddData, ||ReadAt, ||Expire, ||Del, wrong hash, two Finalise; heap and mmap piece sizes; short last piece/block) explored by stateless DFS over yield-point release choices inside a synctest bubble, plus random programs x random schedules; "
              "stress: 4-12 free-running goroutines x rounds on 1-3 stores with a racing Del, built with -race, yield points inject Gosched/sleeps. "
+             "swarm-upload / swarm-readers / swarm-frontends: the end-to-end view - the C16 upload histories and the C02 reader / HTTP Range / FUSE histories (corrupting and honest seeds mixed, evictions and deletion during reads) with every byte that leaves storrent (Piece payloads to scripted peers, Reader.Read, HTTP bodies, FUSE reads) compared with PRF truth at the claimed offset. "
              "Distinct = (scenario, variant) or program hash; non-trivial = at least two real scheduling decisions (sched) / at least one successful Finalise in the history (stress). distinct schedules are counted separately in counters."),
     "assumptions": E1_ASSUME,
-    "min": {"distinct_nontrivial": {"quick": 100, "thorough": 100}, "counters": {"reads_with_data": 200, "visibility_histories": 200, "distinct_schedules_with_interleaving": 500}},
+    "min": {"distinct_nontrivial": {"quick": 100, "thorough": 100}, "counters": {"reads_with_data": 200, "visibility_histories": 200, "distinct_schedules_with_interleaving": 500, "piece_payloads_compared": 5000, "bytes_compared": 50000000}},
     "parts": _e1_parts("C01"),
     "technique": "runtime monitor: content oracle (PRF truth) on every read + per-piece visibility history checked with porcupine, over schedules enumerated at yield points in a synctest bubble and free-running -race stress; SIGSEGV on munmap'd buffers as hardware UAF oracle",
     "level_text": "The real piece store is executed under thousands of distinct yield-point schedules (DFS on templated race windows, random elsewhere) and under -race stress; every byte read is compared with position-dependent truth and each piece's history must be linearizable against 'readable only between a successful Finalise and a reported eviction/Del'. Held on the executions observed.",
